@@ -25,6 +25,9 @@ def shards(tier):
     ]
     for k in range(4 if q else 10):
         out.append({"name": "prog.np.jit.%d" % k, "mode": "jit", "backend": "np", "fn": "progs", "n": 50 if q else 2500})
+    out.append({"name": "forms.np.jit", "mode": "jit", "backend": "np", "fn": "progs", "n": 20 if q else 1000, "forms": 1})
+    out.append({"name": "big.np.jit", "mode": "jit", "backend": "np", "fn": "big", "n": 2 if q else 40})
+    out.append({"name": "big.torch", "mode": "jit", "backend": "torch", "fn": "big", "n": 1 if q else 8})
     return out
 
 
@@ -139,3 +142,33 @@ def run_progs(shard, rec, B):
                             if ok:
                                 for item in ins[:3]:
                                     roundtrip(rec, B, "%s.copy_recompiled.%s" % (cls, comp), c2, item, dict(desc, config=sub), nt)
+
+
+def run_big(shard, rec, B):
+    """round trips on registers wider than a machine word, gates overlapping on high qubits only."""
+    rng = gen.rng_for(rec)
+    classes = ["CliffordCircuit"] + (["Circuit"] if hasattr(B.circuit, "Circuit") else [])
+    Ns = [33, 64, 65, 66, 70, 130] if B.name == "np" else [33, 66]
+    for t in range(shard["n"]):
+        for N in Ns:
+            prog, hot = PR.wide_program(rng, N)
+            desc = {"N": N, "program": [{"kind": s["kind"], "qubits": s["qubits"]} for s in prog]}
+            L = 5
+            gs = np.stack([gen.sparse_string(rng, N, 3) for _ in range(L)])
+            for j in range(L):
+                for q in rng.choice(hot, size=2, replace=False):
+                    gs[j, 2 * q:2 * q + 2] = rng.integers(0, 2, 2)
+            ps = rng.integers(0, 4, L)
+            items = [("list", None, gs, ps, None)]
+            if N <= 70:
+                tg, tp, r = O.random_tableau(rng, N, nrot=10)
+                items.append(("state", None, tg, tp, r))
+            for cls in classes:
+                for variant in CC.VARIANTS:
+                    for comp in (CC.COMPILE if N <= 70 else ("none", "layers")):
+                        sub = "%s.%s.%s" % (cls, variant, comp)
+                        ok, res = rec.attempt("cfg." + sub, desc, lambda: CC.configure(B, cls, prog, N, variant, comp))
+                        if not ok or res[0] is None:
+                            continue
+                        for item in items:
+                            roundtrip(rec, B, sub, res[0], item, dict(desc, config=sub), True)
